@@ -37,11 +37,20 @@ theorem call_handlers_cover_model :
 theorem lookup_handlers :
     Exc.keyError ∈ Gen.Funcs.function_eval_lookupCaught ∧ Exc.keyError ∈ Gen.Funcs.method_eval_lookupCaught := by decide
 
-/-- the erroneous-argument checks of `functionEval` / `methodEval` / `exprlistI` are in the source -/
+/-- the erroneous-argument checks of `functionEval` / `methodEval` / `exprlistI` are in the source, BEFORE the
+application (the extractor reads the statements in execution order; `args[*]` = "the first evaluated argument that is a
+CELEvalError is the result", however it is written: loop, `next(…)`, comprehension) -/
 theorem error_checks :
-    "expr" ∈ Gen.Funcs.function_eval_errorChecks ∧
+    "args[*]" ∈ Gen.Funcs.function_eval_errorChecks ∧
     "object" ∈ Gen.Funcs.method_eval_errorChecks ∧ "exprlist" ∈ Gen.Funcs.method_eval_errorChecks ∧
     Gen.Funcs.exprlistReturnsFirstError = true := by decide
+
+/-- **one application, to the evaluated arguments** (`applyI cx fn.fn vs` / `applyI cx fn.fn (obj :: vs)`): between the
+lookup and the `return`, `function_eval` consists of the error checks and exactly one `function(*args)`, `method_eval` of
+exactly one `function(object, *args)` — the extractor rejects every other statement there (a result cache, a second
+application, a rebinding of `function`), so this is also "no memo between the call site and the function". -/
+theorem applied_once_to_arguments :
+    Gen.Funcs.function_eval_appliedTo = ["*args"] ∧ Gen.Funcs.method_eval_appliedTo = ["object", "*args"] := by decide
 
 /-- `result()` converts ValueError, TypeError, NameError (`CfgOk` of the default context) -/
 theorem result_caught :
